@@ -280,7 +280,11 @@ func postInline(fw *formatWriter, source []byte, cursor *commonmark.Cursor) {
 			fw.s("(")
 			title := child.LinkTitle()
 			if dst := child.LinkDestination(); dst != nil {
-				fw.s(destinationEscaper.Replace(commonmark.NormalizeURI(dst.Text(source))))
+				dstText := destinationEscaper.Replace(commonmark.NormalizeURI(dst.Text(source)))
+				if dstText == "" && title != nil {
+					dstText = "<>"
+				}
+				fw.s(dstText)
 				if title != nil {
 					fw.s(" ")
 				}
